@@ -369,6 +369,9 @@ def run_check(pid, tier, master_seed, jobs, n_override=None, wall_override=None)
 
 def write_evidence(mod, pid, tier, seed, st, done, wall_s, nviol, known_sigs, jobs):
     d = os.path.join(VERIF, 'evidence')
+    if os.environ.get('VERIF_REPO', '/repo') != '/repo':
+        # a sensitivity run against a scratch worktree (tools/seeded.py): evidence files describe /repo only
+        return
     os.makedirs(d, exist_ok=True)
     ep = getattr(mod, 'EVAL_PROBE', None)
     cov = {
